@@ -135,8 +135,8 @@ C14_SPEC = dict(
     harness_args=["c14"],
     driver_args=["c14"],
     ml_modules=["transfac_model"],
-    n={"quick": 400, "thorough": 6000},
-    search_n={"quick": 600, "thorough": 6000},
+    n={"quick": 400, "thorough": 4000},
+    search_n={"quick": 600, "thorough": 4000},
     nontrivial=_nontrivial_c14,
     histogram=_hist_c14,
     rule="[TRANSFAC] files written from random record lists (1..300 records, matrices of 1..40 rows, optional "
